@@ -480,7 +480,7 @@ class MpSerSuite(Suite):
         cases = []
         sizes = [0, 1, 15, 16, 17, 31, 32, 33, 255, 256, 257]
         len4 = self.cfg.get("STRING_LENGTH_SIZE", 2) == 4      # only then can strings of 65536 bytes and more be stored at all
-        big = ([65535, 65536] if len4 else [65535]) if tier == "thorough" else []
+        big = ([65535, 65536] if len4 else [65535]) if (tier == "thorough" or (len4 and self.cfg.get("SLOT_ID_SIZE", 4) <= 2)) else []      # 32-bit string headers in a build with narrow slot ids
         maxlen = 2 ** (8 * self.cfg.get("STRING_LENGTH_SIZE", 2)) - 1
         for z in sizes + big:
             if z <= maxlen:
@@ -781,6 +781,13 @@ class RoundTripSuite(Suite):
                 t = ("[" + t + "]") if lvl % 2 == 0 else ("{6b:" + t + "}")
             cases.append(Case("jsonrt %d t:%s" % (cb, t), kind="jsonrt"))
             cases.append(Case("mprt t:%s" % t, kind="mprt"))
+        if self.cfg.get("STRING_LENGTH_SIZE", 2) == 4:
+            # strings and keys on both sides of the str 16 / str 32 boundary (only this build can store them)
+            for z in (65535, 65536, 70000):
+                # judged on the implementation's outputs (the driver's round-trip operations run with the default string limit)
+                cases.append(Case("mprt t:[S%s,I42]" % ("61" * z), kind="mprt", mline="mpspec -", nocompare=True))
+                cases.append(Case("mprt t:{%s:S78}" % ("6b" * z), kind="mprt", mline="mpspec -", nocompare=True))
+                cases.append(Case("cross %d %s" % (cb, ("5b22" + "61" * z + "222c34325d")), kind="cross", mline="mpspec -", nocompare=True))
         # a map / an array with 65536 entries (map 32 / array 32 headers), through MessagePack input; judged on the implementation's outputs only
         for hdr, item in ((b"\xdf\x00\x01\x00\x00", "a16bc0"), (b"\xdd\x00\x01\x00\x00", "c0")):
             cases.append(Case("mprt m:" + hdr.hex() + item * 65536, kind="mprt", mline="mpspec -", nocompare=True))
@@ -1668,7 +1675,7 @@ class JsonDocSuite(Suite):
         texts = [b'[1,"abc",{"k":2,"abc":12345678901}]', b'{"a":"hello","b":"hello","a":null,"cc":[1.5,"x",true]}', b'{"k":{"k":{"k":"k"}},"k":"k"}',
                  b'["' + b"x" * 31 + b'","' + b"y" * 32 + b'","' + b"x" * 31 + b'"]', b'"' + b"z" * 200 + b'"', b'{"' + b"q" * 70 + b'":"' + b"q" * 70 + b'"}',
                  b"[" + b",".join([b"1"] * 300) + b"]", b"[" + b",".join([b"[]"] * 260) + b"]", b'[4294967296,-2147483649,1.5,0.1,1e300,18446744073709551615]',
-                 b'{a:1,b:\'x\',"a":[]}', b'["\\u00e9\\ud83d\\ude00"]', b"[1,2", b'{"a":1,"b"', b'"unterminated', b"[1 2]", b"  7  ", b"tru", b"[[[[[[[[[[[[1]]]]]]]]]]]]"]
+                 b'{a:1,b:\'x\',"a":[]}', b'["\\u00e9\\ud83d\\ude00"]', b'["a","a\\u0000b","a\\u0000","a"]', b'{"x":1,"x\\u0000y":2,"x\\u0000":[3],"x":4}', b'{"abc":{"abc\\u0000":"abc\\u0000abc"},"abc\\u0000":"abc"}', b"[1,2", b'{"a":1,"b"', b'"unterminated', b"[1 2]", b"  7  ", b"tru", b"[[[[[[[[[[[[1]]]]]]]]]]]]"]
         fails = ["-"] + ["a%d" % k for k in range(1, 13)] + ["f%d" % k for k in range(1, 7)]
         for t in texts:
             for pre in (0, 1):
@@ -2542,6 +2549,8 @@ GEOMETRIES = {
     # more inline pool entries than the id range can address (maxPools = 2 < INITIAL_POOL_COUNT = 4)
     "id1c128": {"POOL_CAPACITY": 128, "INITIAL_POOL_COUNT": 4, "SLOT_ID_SIZE": 1},
     "len4": {"POOL_CAPACITY": 256, "INITIAL_POOL_COUNT": 4, "SLOT_ID_SIZE": 4, "STRING_LENGTH_SIZE": 4},
+    # 4-byte string lengths with 2-byte slot ids (the default of 32-bit targets is 2-byte ids): strings can be longer than the number of slots
+    "len4id2": {"POOL_CAPACITY": 256, "INITIAL_POOL_COUNT": 4, "SLOT_ID_SIZE": 2, "STRING_LENGTH_SIZE": 4},
     # no 64-bit integer storage: doubles are then the only users of extension slots (histories restricted to 32-bit integers)
     "nolonglong": {"USE_LONG_LONG": 0, "POOL_CAPACITY": 3, "INITIAL_POOL_COUNT": 1, "SLOT_ID_SIZE": 2},
 }
@@ -2692,6 +2701,44 @@ class FaultSuite(HistSuite):
     @staticmethod
     def may_target(case, d):
         return True
+
+
+class PairKeySuite(Suite):
+    """C14: members copied by hand through the iteration API (`for (JsonPair kv : src) dst[kv.key()] = kv.value();`) for every kind of key source, keys with an embedded
+    NUL included; then the source document is destroyed and its blocks are recycled. Judged on the implementation: the destination equals the source before, and still after"""
+    name = "pairkey"
+    uses_driver = False
+
+    def generate(self, rng, tier):
+        cases = []
+        keys = [b"k", b"key", b"", b"a\x00b", b"\x00", b"x" * 40, b"\xc3\xa9", b"first", b"last\x00"]
+        vals = [b"v", b"", b"value with\x00nul", b"y" * 50]
+        for kk in ("sc", "sv", "sp", "sj", "sjl"):
+            for key in keys:
+                if kk in ("sp", "sjl") and b"\x00" in key:
+                    continue          # zero-terminated sources cannot carry a NUL
+                for v in (vals if tier == "thorough" else vals[:3]):
+                    cases.append(Case("pairkey %s %s %s" % (kk, key.hex() or "-", v.hex() or "-"), kk=kk, key=key))
+        return cases
+
+    def compare(self, case, h, m):
+        return None
+
+    def oracle(self, case, h):
+        o = Suite.oracle(self, case, h)
+        if o:
+            return o
+        f = h.split(" ")
+        if len(f) != 3:
+            return ("pairkey:output", "unexpected output %r" % h[:80])
+        if f[1] != f[0]:
+            return ("pairkey:copy-differs", "copying the members one by one through JsonPair gave %s from %s (%s)" % (f[1][:80], f[0][:80], case.line[:60]))
+        if f[2] != f[1]:
+            return ("pairkey:depends-on-source", "after the source was destroyed the copy reads %s, it was %s (%s)" % (f[2][:80], f[1][:80], case.line[:60]))
+        return None
+
+    def feature(self, case, h):
+        return case.line
 
 
 class StringKindSuite(HistSuite):
